@@ -30,6 +30,7 @@ CONSTANTS Fams,        \* families to enumerate: "un","untile","fil","filtile","
           MaxUn,       \* "un": base arrays of 0..MaxUn slots, every slice
           MaxFil,      \* "fil": arrays of 0..MaxFil slots x every mask
           MaxBin,      \* "bin": pairs of arrays of 0..MaxBin slots
+          TileP,       \* "untile": max pattern length
           TileQ,       \* "bintile": max pattern length of the right operand
           TileM,       \* "filtile": max mask pattern length
           Mutant       \* "none" | "rle_ignores_offset" | "const_drops_validity"  (kill matrix of the model)
@@ -95,7 +96,7 @@ Blank == [fam |-> "seed", ph |-> "seed", n |-> 0, s |-> 0, base |-> <<>>, off |-
 
 \* Init picks a coarse seed (family, length, first slot); Fill picks the case.
 MaxOf(f) == CASE f = "un" -> MaxUn [] f = "fil" -> MaxFil [] f = "bin" -> MaxBin
-              [] f = "untile" -> 3 [] f = "filtile" -> 2 [] OTHER -> 2
+              [] f = "untile" -> TileP [] f = "filtile" -> 2 [] OTHER -> 2
 MinOf(f) == IF f \in {"un", "fil", "bin"} THEN 0 ELSE 1
 Init == \E f \in Fams : \E n \in MinOf(f)..MaxOf(f) : \E s \in Slots :
           /\ (n = 0 => s = 0)
